@@ -75,7 +75,7 @@ def mk_member(rng, bits, m, cap=None, T=1, seed=False, ctx=None, rngspec=None, p
 def stmt_of(member, **over):
     """the verification-side statement spec of a member (optionally overriding fields)"""
     s = {k: copy.deepcopy(member[k]) for k in ("bits", "cap", "T", "commit", "promises", "seed") if k in member}
-    for k in ("gb0_eq_cH", "h_scale", "gb_scale", "gb_eq", "gbc_scale", "hc_scale"):
+    for k in ("gb0_eq_cH", "h_scale", "gb_scale", "gb_eq", "gbc_scale", "hc_scale", "hp_scale", "gbp_scale"):
         if k in member:
             s[k] = member[k]
     s.update(over)
